@@ -15,6 +15,9 @@ extern mmb_t P(m4ri_mmc_cache)[];
 const lib_t P(m4sim_lib) = {
 #if V_MMC
   .mmc_cache = P(m4ri_mmc_cache),
+#ifdef __M4RI_MMC_NBLOCKS
+  .mmc_nblocks = __M4RI_MMC_NBLOCKS,
+#endif
 #endif
   .name = VNAME, .sse2 = V_SSE2, .mmc = V_MMC, .mzdcache = V_MZDCACHE, .openmp = V_OPENMP, .knobs = V_KNOBS,
 #define X(r, n, a) .n = P(n),
